@@ -7,6 +7,9 @@
 -/
 import PyodaModel.Text.Engine
 import PyodaModel.Text.Compile
+import PyodaModel.Calendar.Core
+import PyodaModel.Calendar.Systems
+import PyodaModel.DateArith
 
 namespace Pyoda.Text
 
@@ -353,6 +356,240 @@ def durationValue (b : Bucket) : R (Option (Int × Int)) :=
     | .error e => .error e
     | .ok v => .ok (some v)
 
+/-! ### all 19 calendars: values, buckets and `calculate_value` through the calendar descriptions `Calendar.Calc`
+  (the calculators of `PyodaModel/Calendar/Systems.lean`, untouched).  Used for patterns whose template value is not in
+  the ISO calendar and for patterns with the calendar field `c`; the functions above stay the ISO path. -/
+
+open Pyoda.Calendar (Calc calcOf)
+
+def calcOfInt (k : Int) : Option Calc := if k < 0 then none else calcOf k.toNat
+
+/-- `calendar._get_era(year)` as era id; calendars 0 … 2 have BCE / CE -/
+def eraIdOfYear (cal : Int) (y : Int) : Int := if cal ≤ 2 then (if y > 0 then 1 else 0) else eraIdOfCal cal.toNat
+
+/-- `calendar._get_year_of_era(year)` -/
+def yearOfEraC (cal : Int) (y : Int) : Int := if cal ≤ 2 then yearOfEra y else y
+
+/-- is `e` one of `calendar.eras()`? -/
+def isEraOf (cal : Int) (e : Int) : Bool := if cal ≤ 2 then (e == 0 || e == 1) else e == eraIdOfCal cal.toNat
+
+/-- the last of `calendar.eras()` -/
+def latestEra (cal : Int) : Int := if cal ≤ 2 then 1 else eraIdOfCal cal.toNat
+
+/-- `get_min_year_of_era` / `get_max_year_of_era` / `get_absolute_year` for an era of the calendar -/
+def minYoe (cal : Int) (c : Calc) : Int := if cal ≤ 2 then 1 else c.minYear
+def maxYoe (cal : Int) (c : Calc) (era : Int) : Int := if cal ≤ 2 then (if era = 1 then c.maxYear else 1 - c.minYear) else c.maxYear
+def absYear (cal : Int) (yoe era : Int) : Int := if cal ≤ 2 then (if era = 1 then yoe else 1 - yoe) else yoe
+
+/-- `LocalDate.day_of_week` (Monday = 1 … Sunday = 7) from the day number -/
+def dayOfWeekC (c : Calc) (y m d : Int) : Int := Calendar.dayOfWeek (c.start y + c.toMonth y m + d - 1)
+
+/-- accessors of a LocalDate in the calendar with ordinal `cal` -/
+def dateGetterC (cal : Int) (c : Calc) (y m d : Int) : Getter
+  | .year => y
+  | .yearOfEra => yearOfEraC cal y
+  | .yearOfEra2 => csharpMod (csharpMod (yearOfEraC cal y) 100 + 100) 100
+  | .monthNum => m
+  | .dayOfMonth => d
+  | .dayOfWeek => dayOfWeekC c y m d
+  | .era => eraIdOfYear cal y
+  | .calendar => cal
+  | _ => 0
+
+def dtGetterC (cal : Int) (c : Calc) (y m d nod : Int) : Getter
+  | .hours24 => ltHour nod
+  | .hours12 => ltClockHour nod
+  | .minutes => ltMinute nod
+  | .seconds => ltSecond nod
+  | .fraction => ltNano nod
+  | .amPm => 0
+  | .sign => 0
+  | s => dateGetterC cal c y m d s
+
+/-- `__determine_year` (as repaired: a template year outside the calendar read from the text is a failure; a template
+    era that the calendar read from the text does not have is replaced by the calendar's latest era) -/
+def determineYearC (cal : Int) (c : Calc) (tc : TmplC) (used : Nat) (b : Bucket) : Option Int :=
+  if hasAny used F.year then
+    let y := b .year
+    if y > c.maxYear ∨ y < c.minYear then none
+    else if hasAny used F.era ∧ b .era ≠ eraIdOfYear cal y then none
+    else if hasAny used F.yearOfEra then
+      let yoe := yearOfEraC cal y
+      let yoe := if hasAny used F.yearTwoDigits then csharpMod yoe 100 else yoe
+      if yoe ≠ b .yearOfEra then none else some y
+    else some y
+  else if ¬ hasAny used F.yearOfEra then
+    if tc.y > c.maxYear ∨ tc.y < c.minYear then none
+    else if hasAny used F.era ∧ b .era ≠ eraIdOfYear cal tc.y then none else some tc.y
+  else
+    let tera := eraIdOfYear tc.cal tc.y
+    let era := if hasAny used F.era then b .era else (if isEraOf cal tera then tera else latestEra cal)
+    let yoe := b .yearOfEra
+    let yoe :=
+      if hasAny used F.yearTwoDigits then
+        let century := Int.tdiv (yearOfEraC tc.cal tc.y) 100
+        let century := if yoe > TWO_DIGIT_YEAR_MAX ∧ century > 1 then century - 1 else century
+        yoe + century * 100
+      else yoe
+    if yoe < minYoe cal c ∨ yoe > maxYoe cal c era then none else some (absYear cal yoe era)
+
+/-- `__determine_month` against `calendar.get_months_in_year(year)` -/
+def determineMonthC (c : Calc) (tmo : Int) (used : Nat) (b : Bucket) (y : Int) : Option Int :=
+  let p := used &&& (F.monthNum ||| F.monthText)
+  let m : Option Int :=
+    if p = F.monthNum then some (b .monthNum)
+    else if p = F.monthText then some (b .monthText)
+    else if p = (F.monthNum ||| F.monthText) then (if b .monthNum ≠ b .monthText then none else some (b .monthNum))
+    else some tmo
+  match m with
+  | none => none
+  | some m => if m > c.months y then none else some m
+
+/-- `_LocalDateParseBucket._calculate_value` with the bucket's calendar `cal` / `c` and template value `tc` -/
+def dateValueC (cal : Int) (c : Calc) (tc : TmplC) (used : Nat) (b : Bucket) : Option (Int × Int × Int) :=
+  if used = (F.year ||| F.monthNum ||| F.dayOfMonth) ∧ cal = 0 then isoDateValue (b .year) (b .monthNum) (b .dayOfMonth)
+  else
+    match determineYearC cal c tc used b with
+    | none => none
+    | some y =>
+      match determineMonthC c tc.m used b y with
+      | none => none
+      | some m =>
+        let d := if hasAny used F.dayOfMonth then b .dayOfMonth else tc.d
+        if d > c.dim y m then none
+        else if hasAny used F.dayOfWeek ∧ b .dayOfWeek ≠ dayOfWeekC c y m d then none
+        else some (y, m, d)
+
+/-- the date bucket of a pattern whose template value is `tc`: the calendar slot holds the template's calendar -/
+def dateBucketC (tc : TmplC) : Bucket := dateBucket0.set .calendar tc.cal
+
+def dtBucketC (tc : TmplC) : Bucket := (timeBucket0 tc.nod).set .calendar tc.cal
+
+/-- (y, m, d, calendar ordinal) -/
+def dateValueG (tc : TmplC) (used : Nat) (b : Bucket) : R (Option (Int × Int × Int × Int)) :=
+  match calcOfInt (b .calendar) with
+  | none => .error .other
+  | some c => .ok ((dateValueC (b .calendar) c tc used b).map fun v => (v.1, v.2.1, v.2.2, b .calendar))
+
+/-- `LocalDate.plus_days(1)` in the calendar (`_FixedLengthDatePeriodField(1).add`, the model of property C09) -/
+def plusOneDayG (cal : Int) (y m d : Int) : R (Int × Int × Int) :=
+  match calcOfInt cal with
+  | none => .error .other
+  | some c => DateArith.addFixed c 1 (y, m, d) 1
+
+/-- `_combine_buckets` in any calendar: (y, m, d, nanosecond of day, calendar ordinal) -/
+def dtValueG (tc : TmplC) (used : Nat) (b : Bucket) : R (Option (Int × Int × Int × Int × Int)) :=
+  let hour24 := decide (b .hours24 = 24)
+  let b' := if hour24 then b.set .hours24 0 else b
+  match dateValueG tc (used &&& F.allDate) b' with
+  | .error e => .error e
+  | .ok none => .ok none
+  | .ok (some (y, m, d, cal)) =>
+    match timeValue tc.nod (used &&& F.allTime) b' with
+    | none => .ok none
+    | some t =>
+      if hour24 then
+        if t ≠ 0 then .ok none
+        else match plusOneDayG cal y m d with
+          | .error .overflowError => .ok none
+          | .error e => .error e
+          | .ok (y', m', d') => .ok (some (y', m', d', t, cal))
+      else .ok (some (y, m, d, t, cal))
+
+/-- the embedded-date branch of `_calculate_value`: `LocalDate(year, month, day, calendar)` from the fields an embedded
+    pattern assigned -/
+def dateValueEG (tc : TmplC) (used : Nat) (b : Bucket) : R (Option (Int × Int × Int × Int)) :=
+  if (used ≠ (F.year ||| F.monthNum ||| F.dayOfMonth) ∨ b .calendar ≠ 0) ∧ hasAny used F.embeddedDate then
+    .ok (some (b .year, b .monthNum, b .dayOfMonth, b .calendar))
+  else dateValueG tc used b
+
+def dtValueEG (tc : TmplC) (used : Nat) (b : Bucket) : R (Option (Int × Int × Int × Int × Int)) :=
+  let hour24 := decide (b .hours24 = 24)
+  let b' := if hour24 then b.set .hours24 0 else b
+  match dateValueEG tc (used &&& F.allDate) b' with
+  | .error e => .error e
+  | .ok none => .ok none
+  | .ok (some (y, m, d, cal)) =>
+    match timeValueE tc.nod (used &&& F.allTime) b' with
+    | none => .ok none
+    | some t =>
+      if hour24 then
+        if t ≠ 0 then .ok none
+        else match plusOneDayG cal y m d with
+          | .error .overflowError => .ok none
+          | .error e => .error e
+          | .ok (y', m', d') => .ok (some (y', m', d', t, cal))
+      else .ok (some (y, m, d, t, cal))
+
+/-- a value with its calendar: `[y, m, d]` / `[y, m, d, nod]` are ISO values, a fifth (fourth) entry is the ordinal -/
+def showDateC (v : Int × Int × Int × Int) : List Int :=
+  if v.2.2.2 = 0 then [v.1, v.2.1, v.2.2.1] else [v.1, v.2.1, v.2.2.1, v.2.2.2]
+
+def showDtC (v : Int × Int × Int × Int × Int) : List Int :=
+  if v.2.2.2.2 = 0 then [v.1, v.2.1, v.2.2.1, v.2.2.2.1] else [v.1, v.2.1, v.2.2.1, v.2.2.2.1, v.2.2.2.2]
+
+/-- format of the segments for a value of calendar `cal` -/
+def fmtSegsG (cu : Culture) (used : Nat) (cal : Int) (c : Calc) (y m d nod : Int) : List Seg → Text → R Text
+  | [], buf => .ok buf
+  | .plain ss :: segs, buf =>
+    match formatSteps cu used (dtGetterC cal c y m d nod) ss buf with
+    | .error e => .error e
+    | .ok buf' => fmtSegsG cu used cal c y m d nod segs buf'
+  | .date e :: segs, buf =>
+    match formatSteps e.cu e.used (dateGetterC cal c y m d) e.steps buf with
+    | .error e => .error e
+    | .ok buf' => fmtSegsG cu used cal c y m d nod segs buf'
+  | .time e :: segs, buf =>
+    match formatSteps e.cu e.used (timeGetter nod) e.steps buf with
+    | .error e => .error e
+    | .ok buf' => fmtSegsG cu used cal c y m d nod segs buf'
+
+/-- parse of the segments with template `tc`: an embedded date pattern has a date bucket of its own (template: the outer
+    template's date, calendar included) and assigns calendar, year, month, day of its value to the outer bucket -/
+def parseSegsG (tc : TmplC) (cu : Culture) : List Seg → Text → Bucket → R (Option (Bucket × Text))
+  | [], l, b => .ok (some (b, l))
+  | .plain ss :: segs, l, b =>
+    match parseSteps cu ss l b with
+    | .error e => .error e
+    | .ok none => .ok none
+    | .ok (some (b', l')) => parseSegsG tc cu segs l' b'
+  | .date c :: segs, l, b =>
+    match parseSteps c.cu c.steps l (dateBucketC tc) with
+    | .error e => .error e
+    | .ok none => .ok none
+    | .ok (some (bi, l')) =>
+      match dateValueG tc c.used bi with
+      | .error e => .error e
+      | .ok none => .ok none
+      | .ok (some (y, m, d, cal)) =>
+        parseSegsG tc cu segs l' ((((b.set .calendar cal).set .year y).set .monthNum m).set .dayOfMonth d)
+  | .time c :: segs, l, b =>
+    match parseSteps c.cu c.steps l (timeBucket0 tc.nod) with
+    | .error e => .error e
+    | .ok none => .ok none
+    | .ok (some (bi, l')) =>
+      match timeValue tc.nod c.used bi with
+      | none => .ok none
+      | some t =>
+        parseSegsG tc cu segs l' ((((b.set .hours24 (ltHour t)).set .minutes (ltMinute t)).set .seconds (ltSecond t)).set .fraction (ltNano t))
+
+/-- does a pattern with embedded parts have the calendar field (as a plain step or inside an embedded date pattern)? -/
+def segsUseCalendar (used : Nat) (segs : List Seg) : Bool :=
+  hasAny used F.calendar || segs.any fun sg => match sg with
+    | .date c => hasAny c.used F.calendar
+    | _ => false
+
+def parseSegmentedG (tc : TmplC) (cu : Culture) (used : Nat) (segs : List Seg) (l : Text) : R (Option (List Int)) :=
+  if l = [] then .ok none else
+  match parseSegsG tc cu segs l (dtBucketC tc) with
+  | .error e => .error e
+  | .ok none => .ok none
+  | .ok (some (b, rest)) =>
+    match dtValueEG tc used b with
+    | .error e => .error e
+    | .ok none => .ok none
+    | .ok (some v) => if rest = [] then .ok (some (showDtC v)) else .ok none
+
 /-! ### pattern objects -/
 
 /-- value of a modelled type in canonical fields: time `[nod]`, date `[y, m, d]`, offset `[seconds]` -/
@@ -364,6 +601,13 @@ def getterOf (ty : PType) (v : List Int) : Option Getter :=
   | .datetime _, [y, m, d, nod] => some (dtGetter y m d nod)
   | .annual _ _, [m, d] => some (annualGetter m d)
   | .duration, [fd, n] => some (durationGetter fd n)
+  | .dateC _, [y, m, d] => some (dateGetter y m d)
+  | .datetimeC _, [y, m, d, nod] => some (dtGetter y m d nod)
+  -- a value of another calendar: the ordinal follows the fields
+  | .date, [y, m, d, cal] => (calcOfInt cal).map fun c => dateGetterC cal c y m d
+  | .dateC _, [y, m, d, cal] => (calcOfInt cal).map fun c => dateGetterC cal c y m d
+  | .datetime _, [y, m, d, nod, cal] => (calcOfInt cal).map fun c => dtGetterC cal c y m d nod
+  | .datetimeC _, [y, m, d, nod, cal] => (calcOfInt cal).map fun c => dtGetterC cal c y m d nod
   | _, _ => none
 
 def fmtCompiled (c : Compiled) (get : Getter) (buf : Text) : R Text := formatSteps c.cu c.used get c.steps buf
@@ -377,6 +621,8 @@ def bucket0 (ty : PType) : Bucket :=
   | .datetime tm => dtBucket0 tm
   | .annual _ _ => dateBucket0
   | .duration => offsetBucket0
+  | .dateC tc => dateBucketC tc
+  | .datetimeC tc => dtBucketC tc
 
 /-- `bucket.calculate_value(used_fields, text)` in canonical fields -/
 def bucketValue (ty : PType) (used : Nat) (b : Bucket) : R (Option (List Int)) :=
@@ -387,6 +633,16 @@ def bucketValue (ty : PType) (used : Nat) (b : Bucket) : R (Option (List Int)) :
   | .datetime tm => mapR (fun o => o.map (fun v => [v.1, v.2.1, v.2.2.1, v.2.2.2])) (dtValue tm used b)
   | .annual tm td => .ok ((annualValue tm td used b).map (fun v => [v.1, v.2]))
   | .duration => mapR (fun o => o.map (fun v => [v.1, v.2])) (durationValue b)
+  | .dateC tc => mapR (fun o => o.map showDateC) (dateValueG tc used b)
+  | .datetimeC tc => mapR (fun o => o.map showDtC) (dtValueG tc used b)
+
+/-- the type whose bucket evaluates a compiled pattern: a LocalDate / LocalDateTime pattern of an ISO template WITH the
+    calendar field `c` is evaluated by the all-calendar bucket (the calendar read from the text decides) -/
+def evalType (ty : PType) (used : Nat) : PType :=
+  match ty with
+  | .date => if hasAny used F.calendar then .dateC TmplC.default else .date
+  | .datetime tm => if hasAny used F.calendar then .datetimeC tm.toC else .datetime tm
+  | t => t
 
 /-- `__SteppedPattern.parse`: empty text, parse actions, `calculate_value`, end of text (by position) -/
 def parseCompiled (ty : PType) (c : Compiled) (l : Text) : R (Option (List Int)) :=
@@ -416,18 +672,23 @@ def fmtPat (ty : PType) (v : List Int) (get : Getter) : Pat → R Text
   | .segmented cu used segs =>
     match v with
     | [y, m, d, nod] => fmtSegs cu used y m d nod segs []
+    | [y, m, d, nod, cal] =>
+      match calcOfInt cal with
+      | some c => fmtSegsG cu used cal c y m d nod segs []
+      | none => .error .runtimeError
     | _ => .error .runtimeError
 end
 
 mutual
 /-- `parse` of a pattern object -/
 def parsePat (ty : PType) (l : Text) : Pat → R (Option (List Int))
-  | .stepped c => parseCompiled ty c l
+  | .stepped c => parseCompiled (evalType ty c.used) c l
   | .zprefix p => if l = ['Z'] then .ok (some [0]) else parsePat ty l p
   | .composite ps => if l = [] then .ok none else parsePats ty l ps
   | .segmented cu used segs =>
     match ty with
-    | .datetime tm => parseSegmented tm cu used segs l
+    | .datetime tm => if segsUseCalendar used segs then parseSegmentedG tm.toC cu used segs l else parseSegmented tm cu used segs l
+    | .datetimeC tc => parseSegmentedG tc cu used segs l
     | _ => .error .runtimeError
 /-- composite: the first pattern that succeeds; every failure on a non-empty text continues -/
 def parsePats (ty : PType) (l : Text) : List Pat → R (Option (List Int))
